@@ -7,7 +7,7 @@ from . import score_common as sc
 from .core import Prop, bits2f, exc_class
 
 CONTAINERS = ["list_int", "list_float", "tuple_int", "np_int64", "np_int32", "np_float64", "pl_int", "pl_float", "list_mixed",
-              "np_uint8", "np_uint32", "pl_uint32", "np_int8", "list_mixed_int_first", "np_float32", "pl_float32"]
+              "np_uint8", "np_uint32", "pl_uint32", "np_int8", "list_mixed_int_first", "np_float32", "pl_float32", "list_npint_first"]
 ENTRY = ["score", "score", "ident", "decompose", "bias", "marginal", "iso", "isomodel"]
 
 
@@ -32,6 +32,9 @@ def conv(vals, container):
         return pl.Series([float(v) for v in vals], dtype=pl.Float64)
     if container == "list_mixed":
         return [int(v) if i % 2 else float(v) for i, v in enumerate(vals)]
+    if container == "list_npint_first":
+        # a numpy integer scalar first, then (possibly non-integer) floats: nothing may be truncated to the first element's type
+        return [np.int64(int(vals[0]))] + [float(v) for v in vals[1:]]
     if container == "list_mixed_int_first":
         return [float(v) if i % 2 else int(v) for i, v in enumerate(vals)]  # a type inferred from the first element is wrong
     if container in ("np_uint8", "np_uint32", "np_int8", "np_float32"):
@@ -224,6 +227,13 @@ class C17(Prop):
                              z=[rng.randint(1, cap) for _ in range(n2)], w=None if c["w"] is None else [rng.randint(1, 4) for _ in range(n2)],
                              feature=[rng.randint(0, 3) for _ in range(n2)])
                     c.pop("zcontainer", None)
+            if c["container"] == "list_npint_first" and "rows2d" not in c and c.get("kind") != "logloss" and ep != "score":
+                # the values after the first are not whole numbers (only the first element is an integer scalar)
+                c.pop("zcontainer", None)
+                for key in ("y", "z") + (("feature",) if "feature" in c else ()):
+                    c[key] = [c[key][0]] + [v + 0.5 for v in c[key][1:]]
+                if "query" in c:
+                    c["query"] = [q + 0.125 for q in c["query"]]
             if "rows2d" not in c and c.get("kind") != "logloss" and rng.random() < 0.2:
                 c["reuse"] = True
             yield c
